@@ -207,6 +207,11 @@ def h_splitter(cfg):
     env = Environment()
     N = cfg['N']
     recs = [Rec(env, 'o%d' % i) for i in range(N)]
+    if cfg.get('stamping_first'):
+        # the first output is a device that stamps the packet the moment it receives it (as every Port does)
+        def stamp(p):
+            p.perhop_time['first-output'] = 5
+        recs[0] = Rec(env, 'o0', on_put=stamp)
     if cfg['kind'] == 'two':
         sp = Splitter()
         if 0 not in cfg.get('unset', []):
@@ -228,7 +233,7 @@ def h_splitter(cfg):
     pkt.perhop_time['p1'] = pkt.time
     pkt.current_time = pkt.time
     snap = snapshot(pkt)
-    full = dict(vars(pkt))
+    full = {k: (dict(v) if isinstance(v, dict) else v) for k, v in vars(pkt).items()}     # as handed to the splitter
     try:
         sp.put(pkt)
     except Exception as ex:  # noqa
@@ -250,6 +255,8 @@ def h_splitter(cfg):
     # every output but the first gets a copy - also when the first output is not plugged in
     check('c18.splitter-distinct-objects', all(c is not pkt for c in copies), 'an output other than the first received the original')
     for c in copies:
+        check('c18.splitter-copy-as-received', 'first-output' not in c.perhop_time,
+              'the copy carries a stamp the first output put on the original')
         check_unchanged('c18.splitter-copy', c, snap)
         check('c18.splitter-copy-complete', set(vars(c)) == set(full), sorted(set(full) ^ set(vars(c))))
         for k, v in full.items():
@@ -267,7 +274,16 @@ def h_splitter(cfg):
         c.packet_id = -1 - j
         c.src = 'changed%d' % j
         c.time = c.time + 5
+        # the per-hop stamps and the priority marks are header fields as well (every port / SP scheduler behind an output writes them)
+        c.perhop_time['behind-out%d' % j] = 77
+        c.priorities[100 + j] = 1
     check_unchanged('c18.splitter-independent', pkt, snap)
+    own = ['first-output', 'p1'] if cfg.get('stamping_first') else ['p1']
+    check('c18.splitter-independent', sorted(pkt.perhop_time) == own and sorted(pkt.priorities) == [3],
+          'stamps written on a copy show up on the original: %s %s' % (sorted(pkt.perhop_time), sorted(pkt.priorities)))
+    for j, c in enumerate(copies):
+        check('c18.splitter-independent', sorted(c.perhop_time) == sorted(['p1', 'behind-out%d' % j]) and
+              sorted(c.priorities) == [3, 100 + j], 'stamps written on one copy show up on another: %s' % sorted(c.perhop_time))
     for j, c in enumerate(copies):
         check('c18.splitter-independent', eq(c.size, size + 1 + j) and c.flow_id == 1000 + j, j)
     cover('nontrivial')
@@ -470,6 +486,8 @@ def jobs(tier, seed):
             js.append({'harness': 'hub', 'cfg': {'nend': m, 'ports': mode}})
     js.append({'harness': 'splitter', 'cfg': {'kind': 'two', 'N': 2}})
     js.append({'harness': 'splitter', 'cfg': {'kind': 'two', 'N': 2, 'unset': [0]}})
+    js.append({'harness': 'splitter', 'cfg': {'kind': 'two', 'N': 2, 'stamping_first': True}})
+    js.append({'harness': 'splitter', 'cfg': {'kind': 'n', 'N': 3, 'stamping_first': True}})
     js.append({'harness': 'splitter', 'cfg': {'kind': 'two', 'N': 2, 'unset': [1]}})
     for N in (2, 3, 4):
         js.append({'harness': 'splitter', 'cfg': {'kind': 'n', 'N': N}})
